@@ -614,6 +614,22 @@ def gen_space():
         i += 1
     out += ("/-- `Cell::min_distance_to_face`: coordinates of `self.width` that occur, in source order -/\n"
             "def minDistToFaceWidthAxes : List Nat := [%s]\n" % ', '.join(str(x) for x in terms))
+    # Space::knn: the ring termination bound `dist_to_face + r * <cell width>.<reduction>()`
+    _, kbody, _ = find_fn(toks[s:e], 'knn')
+    kt = [t[1] for t in kbody]
+    red = None
+    for i in range(len(kt) - 4):
+        if kt[i] == 'min_dist_to_ring' and kt[i + 1] == '=':
+            j = i
+            while kt[j] != ';':
+                if kt[j] == 'width' and kt[j + 1] == '.':
+                    red = kt[j + 2]
+                j += 1
+            break
+    if red is None:
+        raise Unparsed("ring termination bound `min_dist_to_ring = ... width.<reduction>()` not found in knn")
+    out += ("/-- `Space::knn`: the reduction of the cell width used in the ring termination bound -/\n"
+            "def ringBoundWidthReduction : String := \"%s\"\n" % red)
     return out
 
 
@@ -1074,7 +1090,7 @@ STUBS = {
     'Geom': "",
     'HalfSpace': "",
     'Par': "def parLoops : List (List String) := []\ndef seqLoops : List (List String) := []\ndef sharedStateHits : List String := []\ndef featureOnlyItems : List String := []\n",
-    'Space': "def cellLocAxes : List Nat := []\ndef closestLocAxes : List (Nat × Nat × Nat) := []\ndef minDistToFaceWidthAxes : List Nat := []\n",
+    'Space': "def cellLocAxes : List Nat := []\ndef closestLocAxes : List (Nat × Nat × Nat) := []\ndef minDistToFaceWidthAxes : List Nat := []\ndef ringBoundWidthReduction : String := \"\"\n",
     'Grid': "def gridPad : Rat := 0\ndef gridSpan : Rat := 1\ndef mantissaMask : Nat := 0\ndef gridSharedScale : Bool := false\n",
 }
 
